@@ -449,7 +449,10 @@ def cmp_term(op, a, b):
     return ("cmp", op, a, b)
 
 
-_NEVER_NONE = ("tuple", "new", "comp", "flat", "op", "draw", "cmp", "fstr", "str")
+_NEVER_NONE = ("tuple", "new", "comp", "flat", "op", "draw", "cmp", "fstr", "str", "partial", "closure", "lambda",
+               "getter", "methodcaller")
+_METHOD_NAMES = {"append", "extend", "insert", "pop", "popleft", "appendleft", "remove", "clear", "update", "add",
+                 "discard", "get", "keys", "values", "items", "copy", "setdefault", "sort", "index", "count"}
 
 
 def _is_none(a):
@@ -461,6 +464,10 @@ def _is_none(a):
         return ("const", a[1] is None)
     if a[0] in _NEVER_NONE:
         return ("const", False)
+    if a[0] == "attr" and a[2] in _METHOD_NAMES:
+        return ("const", False)         # a bound container method
+    if a[0] == "global" and not a[1].startswith("?"):
+        return ("const", False)         # a function / class / module
     if a[0] == "gate":
         x, y = _is_none(a[2]), _is_none(a[3])
         if x is None or y is None:
@@ -549,6 +556,21 @@ def tget(v, i):
         if v[0] == "gate":
             return gate(v[1], tget(v[2], i), tget(v[3], i))
     return ("tget", v, i)
+
+
+def _zip_displays(args, depth=0):
+    """zip of tuple displays (or selections between displays): the display of the pairs, else None."""
+    if all(a[0] == "tuple" and len(a) == 2 for a in args):
+        n = min(len(a[1]) for a in args)
+        return ("tuple", tuple(("tuple", tuple(a[1][i] for a in args)) for i in range(n)))
+    if depth > 3:
+        return None
+    for k, a in enumerate(args):
+        if a[0] == "gate":
+            x = _zip_displays(args[:k] + (a[2],) + args[k + 1:], depth + 1)
+            y = _zip_displays(args[:k] + (a[3],) + args[k + 1:], depth + 1)
+            return gate(a[1], x, y) if x is not None and y is not None else None
+    return None
 
 
 def _concat(parts):
@@ -1545,8 +1567,10 @@ class Summariser:
         out_env = {}
         for k in set().union(*[set(envs[i]) for i in live]):
             vals = {envs[i].get(k, ("undef",)) for i in live}
-            alts = tuple(dict.fromkeys(envs[i].get(k, ("undef",)) for i in live))
-            out_env[k] = vals.pop() if len(vals) == 1 else ("tryphi", tid, k, alts)
+            by_val = {}
+            for i in live:
+                by_val.setdefault(envs[i].get(k, ("undef",)), i)       # arm 0 = try body, arm j = j-th handler
+            out_env[k] = vals.pop() if len(vals) == 1 else ("tryphi", tid, k, tuple(by_val), tuple(by_val.values()))
         out_f = {}
         for k in set().union(*[set(fss[i]) for i in live]):
             vals = {fss[i].get(k, ("field0", k)) for i in live}
@@ -1803,6 +1827,13 @@ class Summariser:
 
     # -- calls -----------------------------------------------------------------------------------
     def call(self, e, events):
+        # a call of a package generator function used as a value
+        target = self._callee_def(e) if isinstance(e.func, (ast.Attribute, ast.Name)) else None
+        if target is not None and self._yields(target[2]) and \
+                not any(ast.unparse(d) in ("contextmanager", "contextlib.contextmanager") for d in target[2].decorator_list):
+            disp = self.generator_display(e, events)
+            if disp is not None:
+                return disp
         if isinstance(e.func, ast.Attribute) and e.func.attr == "format" and isinstance(e.func.value, ast.Constant) and \
                 isinstance(e.func.value.value, str) and not any(isinstance(a, ast.Starred) for a in e.args) and \
                 all(k.arg is not None for k in e.keywords):
@@ -1817,6 +1848,9 @@ class Summariser:
             if k.arg is None and v[0] == "new" and v[2] == "dict" and v[3] and \
                     all(i[0] == "kv" and i[1][0] == "const" and isinstance(i[1][1], str) for i in v[3]):
                 kwargs.extend((i[1][1], i[2]) for i in v[3])         # f(**{"a": x, "b": y}) is f(a=x, b=y)
+            elif k.arg is None and v[0] == "new" and v[2] == "dict" and v[3] and \
+                    all(isinstance(i, tuple) and len(i) == 3 and i[0] == "kw" and i[1] != "**" for i in v[3]):
+                kwargs.extend((i[1], i[2]) for i in v[3])            # f(**dict(a=x, b=y)) likewise
             else:
                 kwargs.append((k.arg if k.arg is not None else "**", v))
         kwargs = tuple(kwargs)
@@ -1909,9 +1943,10 @@ class Summariser:
             elif r is None and f.id in PURE_BUILTINS:
                 if f.id == "bool" and len(args) == 1 and not kwargs and _is_bool(args[0]):
                     return args[0]
-                if f.id == "zip" and not kwargs and len(args) >= 2 and all(a[0] == "tuple" and len(a) == 2 for a in args):
-                    n = min(len(a[1]) for a in args)          # zip of displays: the display of the pairs
-                    return ("tuple", tuple(("tuple", tuple(a[1][i] for a in args)) for i in range(n)))
+                if f.id == "zip" and not kwargs and len(args) >= 2:
+                    z = _zip_displays(args)
+                    if z is not None:
+                        return z
                 if f.id == "len" and args == (("self",),) and self.cls is not None:
                     c, m = self.prog.find_method(self.cls, "__len__")
                     if m is not None:
@@ -2116,6 +2151,34 @@ class Summariser:
                       dict(params), ("const", None))
         events.append(inl)
         return sub, inl
+
+    def generator_display(self, call, events):
+        """gen(...) used as a value where every yield of gen lies outside loops: the tuple display of the
+        yielded values, a selection between displays when yields are conditional; None if not applicable."""
+        got = []
+        base = len(self.facts)
+        depth = len(self.loops)
+
+        def consumer(val, gen, yst):
+            got.append((val, tuple(gen.facts[base:]), len(gen.loops) > depth))
+            return []
+        probe = []
+        res = self.run_generator(call, probe, consumer)
+        if res is None:
+            return None
+        if any(in_loop for _, _, in_loop in got) or len(got) > 4:
+            raise Unsupported(f"generator with yields inside loops used as a value at {self.module.path}:{call.lineno}")
+        events.extend(probe)
+
+        def pick(i, chosen):
+            if i == len(got):
+                return ("tuple", tuple(chosen))
+            val, facts, _ = got[i]
+            if not facts:
+                return pick(i + 1, chosen + [val])
+            cond = facts[0] if len(facts) == 1 else ("and", tuple(facts))
+            return gate(cond, pick(i + 1, chosen + [val]), pick(i + 1, chosen))
+        return pick(0, [])
 
     def closure(self, node):
         """A nested function / lambda as a value.  It is inlined where it is called, with the variables of
@@ -2353,10 +2416,24 @@ class Summariser:
             def callable_leaf(x):
                 return (x[0] == "global" and not x[1].startswith(("?", "builtins."))) or \
                     x[0] in ("closure", "partial", "getter", "methodcaller") or \
+                    (x[0] == "attr" and x[2] in _METHOD_NAMES) or \
                     (x[0] == "gate" and callable_leaf(x[2]) and callable_leaf(x[3]))
-            if not (callable_leaf(recv[2]) and callable_leaf(recv[3])):
-                return None
             cond = recv[1]
+            # an alternative that the branch facts exclude (`if f is not None: f(x)`) is not called
+            from .rules import boolalg
+            try:
+                live_t = boolalg.satisfiable(("and", tuple(self.facts) + (cond,)))
+                live_e = boolalg.satisfiable(("and", tuple(self.facts) + (negate(cond),)))
+            except ValueError:
+                live_t = live_e = True
+            if live_t and not live_e:
+                return self._call_any(recv[2], args, kwargs, events, e)
+            if live_e and not live_t:
+                return self._call_any(recv[3], args, kwargs, events, e)
+            def maybe_callable(x):
+                return callable_leaf(x) or x[0] == "gate"
+            if not (maybe_callable(recv[2]) and maybe_callable(recv[3])):
+                return None
             env0, f0 = dict(self.env), dict(self.fields)
             ev_t, ev_e = [], []
             self.facts.append(cond)
@@ -2365,10 +2442,11 @@ class Summariser:
             f_t = self.fields
             self.env, self.fields = dict(env0), dict(f0)
             self.facts.append(negate(cond))
-            b = self._call_any(recv[3], args, kwargs, ev_e, e)
+            b = self._call_any(recv[3], args, kwargs, ev_e, e) if a is not None else None
             self.facts.pop()
             if a is None or b is None:
-                raise Unsupported(f"call of a conditional callable at {self.module.path}:{e.lineno}")
+                self.env, self.fields = env0, f0
+                return None
             events.append(If(cond, ev_t, ev_e, e.lineno, False))
             self.fields = self.merge(cond, f_t, self.fields, field=True)
             return gate(cond, a, b)
